@@ -80,6 +80,8 @@ openssl req -new -key rsa2048.key -subj "/CN=verif tsa two/C=US" -out tsa2.csr 2
 openssl x509 -req -in tsa2.csr -CA inter.crt -CAkey inter.key -CAcreateserial -days 365 -out tsa2.crt -extfile v.cnf -extensions tsaext 2>/dev/null
 cat inter.crt ca.crt > chain2.pem
 cat inter.crt ca.crt > chain.pem
+cat rsa2048.crt ec.crt tsa.crt tsa2.crt inter.crt > allcerts.pem
+cat tsa.crt tsa2.crt inter.crt > tsacerts.pem
 printf 'hello world\n' > content.txt
 head -c 300 /dev/zero | tr '\0' 'x' > content300.txt
 : > empty.txt
